@@ -90,9 +90,6 @@ fn conv(codec: &str, text: &[char]) -> Value {
 /// field is a Base-N blob, with the text split into tokens of two characters
 /// (token boundaries must not matter).
 fn scan(codec: &str, text: &[char]) -> Value {
-    use domain::base::iana::Class;
-    use domain::base::rdata::ComposeRecordData;
-    use domain::zonefile::inplace::{Entry, Zonefile};
     let mut toks = String::new();
     for (i, c) in text.iter().enumerate() {
         if codec != "b32" && i > 0 && i % 2 == 0 {
@@ -100,15 +97,26 @@ fn scan(codec: &str, text: &[char]) -> Value {
         }
         toks.push(*c);
     }
+    scan_bytes(codec, toks.as_bytes())
+}
+
+/// `toks`: the blob field(s) as they stand in the zone file
+fn scan_bytes(codec: &str, toks: &[u8]) -> Value {
+    use domain::base::iana::Class;
+    use domain::base::rdata::ComposeRecordData;
+    use domain::zonefile::inplace::{Entry, Zonefile};
     // prefix = RDATA octets that precede the blob
-    let (line, prefix): (String, usize) = match codec {
-        "b16" => (format!("x. 3600 IN DS 1 8 2 {}\n", toks), 4),
-        "b32" => (format!("x. 3600 IN NSEC3 1 0 0 - {} A\n", toks), 6),
-        _ => (format!("x. 3600 IN OPENPGPKEY {}\n", toks), 0),
+    let (head, tail, prefix): (&str, &str, usize) = match codec {
+        "b16" => ("x. 3600 IN DS 1 8 2 ", "\n", 4),
+        "b32" => ("x. 3600 IN NSEC3 1 0 0 - ", " A\n", 6),
+        _ => ("x. 3600 IN OPENPGPKEY ", "\n", 0),
     };
+    let mut line = head.as_bytes().to_vec();
+    line.extend_from_slice(toks);
+    line.extend_from_slice(tail.as_bytes());
     let mut zf = Zonefile::new();
     zf.set_default_class(Class::IN);
-    zf.extend_from_slice(line.as_bytes());
+    zf.extend_from_slice(&line);
     match zf.next_entry() {
         Ok(Some(Entry::Record(r))) => {
             let mut rd = Vec::new();
@@ -130,9 +138,6 @@ fn scan(codec: &str, text: &[char]) -> Value {
 /// the `scan`/from-string paths of the record data types), tokens of two
 /// characters.
 fn iscan(codec: &str, text: &[char]) -> Value {
-    use domain::base::rdata::ComposeRecordData;
-    use domain::base::scan::IterScanner;
-    use domain::rdata::{Ds, Nsec3, Openpgpkey};
     let mut toks: Vec<String> = vec![];
     for (i, c) in text.iter().enumerate() {
         if codec == "b32" {
@@ -142,6 +147,13 @@ fn iscan(codec: &str, text: &[char]) -> Value {
         }
         toks.last_mut().unwrap().push(*c);
     }
+    iscan_toks(codec, toks)
+}
+
+fn iscan_toks(codec: &str, toks: Vec<String>) -> Value {
+    use domain::base::rdata::ComposeRecordData;
+    use domain::base::scan::IterScanner;
+    use domain::rdata::{Ds, Nsec3, Openpgpkey};
     let mut rd = Vec::new();
     match codec {
         "b16" => {
@@ -182,67 +194,249 @@ fn iscan(codec: &str, text: &[char]) -> Value {
     }
 }
 
+/// RDATA of the single record in `line` as the zone-file reader builds it
+fn zf_rdata(line: &[u8]) -> Result<Vec<u8>, ()> {
+    use domain::base::iana::Class;
+    use domain::base::rdata::ComposeRecordData;
+    use domain::zonefile::inplace::{Entry, Zonefile};
+    let mut zf = Zonefile::new();
+    zf.set_default_class(Class::IN);
+    zf.extend_from_slice(line);
+    match zf.next_entry() {
+        Ok(Some(Entry::Record(r))) => {
+            let mut rd = Vec::new();
+            r.data().compose_rdata(&mut rd).map_err(|_| ())?;
+            Ok(rd)
+        }
+        _ => Err(()),
+    }
+}
+
+fn line_with(head: &str, field: &[u8]) -> Vec<u8> {
+    let mut l = head.as_bytes().to_vec();
+    l.extend_from_slice(field);
+    l.push(b'\n');
+    l
+}
+
+/// NSEC3PARAM: alg flags iter(2) saltlen salt
+fn salt_zf(field: &[u8]) -> Value {
+    res_json(zf_rdata(&line_with("x. 3600 IN NSEC3PARAM 1 0 10 ", field)).map(|rd| rd[5..].to_vec()))
+}
+
+fn salt_iter(tok: String) -> Value {
+    use domain::base::rdata::ComposeRecordData;
+    use domain::base::scan::IterScanner;
+    use domain::rdata::Nsec3param;
+    let mut sc = IterScanner::<_, Vec<u8>>::new(vec!["1".to_string(), "0".into(), "10".into(), tok]);
+    res_json(match Nsec3param::scan(&mut sc) {
+        Ok(v) if sc.is_exhausted() => {
+            let mut rd = Vec::new();
+            v.compose_rdata(&mut rd).unwrap();
+            Ok(rd[5..].to_vec())
+        }
+        _ => Err(()),
+    })
+}
+
+fn salt_str(s: &str) -> Value {
+    use domain::rdata::nsec3::Nsec3Salt;
+    use std::str::FromStr;
+    res_json(Nsec3Salt::<Vec<u8>>::from_str(s).map(|v| v.as_slice().to_vec()).map_err(|_| ()))
+}
+
+fn ohash_str(s: &str) -> Value {
+    use domain::rdata::nsec3::OwnerHash;
+    use std::str::FromStr;
+    res_json(OwnerHash::<Vec<u8>>::from_str(s).map(|v| v.as_slice().to_vec()).map_err(|_| ()))
+}
+
+/// SVCB: priority(2) target(root = 1 octet) key(2) len(2) value
+fn ech_zf(field: &[u8]) -> Value {
+    res_json(zf_rdata(&line_with("x. 3600 IN SVCB 1 . ech=", field)).map(|rd| rd[7..].to_vec()))
+}
+
 /// Other users of the codecs with their own glue code: the NSEC3 salt
 /// (Base16 behind a wrapper converter, single token), `OwnerHash::from_str`
 /// (Base32) and the SVCB `ech` parameter (Base64 converter driven by hand).
 fn users(codec: &str, text: &[char]) -> Value {
-    use domain::base::iana::Class;
-    use domain::base::rdata::ComposeRecordData;
-    use domain::base::scan::IterScanner;
-    use domain::rdata::nsec3::{Nsec3Salt, OwnerHash};
-    use domain::rdata::Nsec3param;
-    use domain::zonefile::inplace::{Entry, Zonefile};
-    use std::str::FromStr;
     let s: String = text.iter().collect();
-    let zf_rdata = |line: String| -> Result<Vec<u8>, ()> {
-        let mut zf = Zonefile::new();
-        zf.set_default_class(Class::IN);
-        zf.extend_from_slice(line.as_bytes());
-        match zf.next_entry() {
-            Ok(Some(Entry::Record(r))) => {
-                let mut rd = Vec::new();
-                r.data().compose_rdata(&mut rd).map_err(|_| ())?;
-                Ok(rd)
-            }
-            _ => Err(()),
-        }
-    };
     match codec {
-        "b16" => {
-            // NSEC3PARAM: alg flags iter(2) saltlen salt
-            let a = res_json(
-                zf_rdata(format!("x. 3600 IN NSEC3PARAM 1 0 10 {}\n", s)).map(|rd| rd[5..].to_vec()),
-            );
-            let mut sc = IterScanner::<_, Vec<u8>>::new(vec![
-                "1".to_string(), "0".into(), "10".into(), s.clone(),
-            ]);
-            let b = res_json(match Nsec3param::scan(&mut sc) {
-                Ok(v) if sc.is_exhausted() => {
-                    let mut rd = Vec::new();
-                    v.compose_rdata(&mut rd).unwrap();
-                    Ok(rd[5..].to_vec())
-                }
-                _ => Err(()),
-            });
-            let c = res_json(
-                Nsec3Salt::<Vec<u8>>::from_str(&s).map(|v| v.as_slice().to_vec()).map_err(|_| ()),
-            );
-            json!({"salt_zf": a, "salt_iter": b, "salt_str": c})
-        }
-        "b32" => {
-            let c = res_json(
-                OwnerHash::<Vec<u8>>::from_str(&s).map(|v| v.as_slice().to_vec()).map_err(|_| ()),
-            );
-            json!({"ohash_str": c})
-        }
-        _ => {
-            // SVCB: priority(2) target(root = 1 octet) key(2) len(2) value
-            let a = res_json(
-                zf_rdata(format!("x. 3600 IN SVCB 1 . ech={}\n", s)).map(|rd| rd[7..].to_vec()),
-            );
-            json!({"ech_zf": a})
+        "b16" => json!({"salt_zf": salt_zf(s.as_bytes()), "salt_iter": salt_iter(s.clone()),
+                        "salt_str": salt_str(&s)}),
+        "b32" => json!({"ohash_str": ohash_str(&s)}),
+        _ => json!({"ech_zf": ech_zf(s.as_bytes())}),
+    }
+}
+
+//------------ the symbol level ------------------------------------------------
+
+/// An entry symbol of a case: {"k": "c"|"s"|"d"|"e", "v": n}
+fn esym_of(v: &Value) -> EntrySymbol {
+    let n = v["v"].as_u64().unwrap_or(0);
+    match v["k"].as_str() {
+        Some("c") => EntrySymbol::Symbol(Symbol::Char(char::from_u32(n as u32).unwrap_or('?'))),
+        Some("s") => EntrySymbol::Symbol(Symbol::SimpleEscape(n as u8)),
+        Some("d") => EntrySymbol::Symbol(Symbol::DecimalEscape(n as u8)),
+        _ => EntrySymbol::EndOfToken,
+    }
+}
+
+/// `process_symbol` call by call up to the first error, then `process_tail`:
+/// (per-call results, overall result)
+fn conv_steps<C: ConvertSymbols<EntrySymbol, std::io::Error>>(
+    mut c: C,
+    esyms: &[EntrySymbol],
+) -> (Vec<Value>, Value) {
+    let mut steps = vec![];
+    let mut out = vec![];
+    for s in esyms {
+        match c.process_symbol(*s) {
+            Ok(d) => {
+                let d = d.map(|d| d.to_vec()).unwrap_or_default();
+                out.extend_from_slice(&d);
+                steps.push(json!({"ok": json_bytes(&d)}));
+            }
+            Err(_) => {
+                steps.push(json!({"err": true}));
+                return (steps, json!({"err": true}));
+            }
         }
     }
+    match c.process_tail() {
+        Ok(d) => {
+            if let Some(d) = d {
+                out.extend_from_slice(d);
+            }
+            (steps, json!({"ok": json_bytes(&out)}))
+        }
+        Err(_) => (steps, json!({"err": true})),
+    }
+}
+
+/// The written form of a symbol: as octets of a zone file, and as a string
+/// (None where a string cannot hold it: `\X` with X >= 0x80 is a raw octet).
+fn write_sym(s: Symbol, zf: &mut Vec<u8>, st: &mut Option<String>) {
+    match s {
+        Symbol::Char(c) => {
+            let mut b = [0u8; 4];
+            zf.extend_from_slice(c.encode_utf8(&mut b).as_bytes());
+            if let Some(st) = st.as_mut() {
+                st.push(c);
+            }
+        }
+        Symbol::SimpleEscape(v) => {
+            zf.push(b'\\');
+            zf.push(v);
+            if v < 0x80 {
+                if let Some(st) = st.as_mut() {
+                    st.push('\\');
+                    st.push(v as char);
+                }
+            } else {
+                *st = None;
+            }
+        }
+        Symbol::DecimalEscape(v) => {
+            let t = format!("\\{:03}", v);
+            zf.extend_from_slice(t.as_bytes());
+            if let Some(st) = st.as_mut() {
+                st.push_str(&t);
+            }
+        }
+    }
+}
+
+/// The written form of a malformed escape sequence (variant `v` of BaseN.tla)
+fn write_bad(v: u64, zf: &mut Vec<u8>, st: &mut Option<String>) {
+    let t = match v {
+        0 => "\\",
+        1 => "\\9",
+        2 => "\\9x",
+        3 => "\\999",
+        _ => "\\\u{e9}",
+    };
+    zf.extend_from_slice(t.as_bytes());
+    if let Some(st) = st.as_mut() {
+        st.push_str(t);
+    }
+}
+
+fn sym_case(codec: &str, input: &Value) -> Value {
+    let empty = vec![];
+    let elems = input["syms"].as_array().unwrap_or(&empty);
+    let is_bad = |e: &Value| e["k"].as_str() == Some("x");
+    let flag = |k: &str| input[k].as_bool() == Some(true);
+    let (it, zf, one) = (flag("it"), flag("zf"), flag("one"));
+    let skip = || json!({"skip": true});
+    // direct: only symbols can be handed to a converter
+    let (steps, fin) = if elems.iter().any(is_bad) {
+        (skip(), skip())
+    } else {
+        let esyms: Vec<EntrySymbol> = elems.iter().map(esym_of).collect();
+        let (steps, fin) = match codec {
+            "b16" => conv_steps(base16::SymbolConverter::new(), &esyms),
+            "b32" => conv_steps(base32::SymbolConverter::new(), &esyms),
+            _ => conv_steps(base64::SymbolConverter::new(), &esyms),
+        };
+        (Value::Array(steps), fin)
+    };
+    // written forms: tokens split at EndOfToken (empty tokens do not exist)
+    let mut ztoks: Vec<Vec<u8>> = vec![vec![]];
+    let mut stoks: Vec<Option<String>> = vec![Some(String::new())];
+    for e in elems {
+        if is_bad(e) {
+            write_bad(e["v"].as_u64().unwrap_or(0), ztoks.last_mut().unwrap(), stoks.last_mut().unwrap());
+            continue;
+        }
+        match esym_of(e) {
+            EntrySymbol::EndOfToken => {
+                if !ztoks.last().unwrap().is_empty() {
+                    ztoks.push(vec![]);
+                    stoks.push(Some(String::new()));
+                }
+            }
+            EntrySymbol::Symbol(s) => {
+                write_sym(s, ztoks.last_mut().unwrap(), stoks.last_mut().unwrap())
+            }
+        }
+    }
+    if ztoks.last().unwrap().is_empty() && ztoks.len() > 1 {
+        ztoks.pop();
+        stoks.pop();
+    }
+    let zline: Vec<u8> = ztoks.join(&b' ');
+    let strs: Option<Vec<String>> = stoks.iter().cloned().collect();
+    // string API on the written form (no token boundaries there)
+    let whole: Option<String> = strs.as_ref().map(|v| v.concat());
+    let str_obs = match &whole {
+        Some(w) => {
+            let chars: Vec<char> = w.chars().collect();
+            let d = decode(codec, w);
+            let (m, _) = machine(codec, &chars);
+            if d == m { d } else { json!({"decode": d, "decoder": m}) }
+        }
+        // a raw octet >= 0x80 after a backslash: not a string at all
+        None => json!({"err": true}),
+    };
+    let need_str = |what: &str| -> Vec<String> {
+        strs.clone().unwrap_or_else(|| panic!("case flags {} for a text no string can hold", what))
+    };
+    let iscan_obs = if it { iscan_toks(codec, need_str("it")) } else { skip() };
+    let scan_obs = if zf { scan_bytes(codec, &zline) } else { skip() };
+    let users = match codec {
+        "b16" => json!({
+            "salt_str": match &whole { Some(w) => salt_str(w), None => json!({"err": true}) },
+            "salt_iter": if it && one { salt_iter(need_str("it").concat()) } else { skip() },
+            "salt_zf": if zf && one { salt_zf(&zline) } else { skip() },
+        }),
+        "b32" => json!({
+            "ohash_str": match &whole { Some(w) => ohash_str(w), None => json!({"err": true}) },
+        }),
+        _ => json!({"ech_zf": if zf && one { ech_zf(&zline) } else { skip() }}),
+    };
+    json!({"steps": steps, "conv": fin, "str": str_obs, "iscan": iscan_obs, "scan": scan_obs,
+           "users": users})
 }
 
 fn encode(codec: &str, o: &[u8]) -> Value {
@@ -287,6 +481,7 @@ fn main() {
                 }
                 o
             }
+            Some("sym") => sym_case(&codec, input),
             Some("enc") => encode(&codec, &bytes_of(&input["octets"])),
             _ => json!({"bad_case": true}),
         }
